@@ -11,8 +11,10 @@ go build ./... && go build -tags verif ./... && echo "BUILD ok" || echo "BUILD F
 git checkout -q go.mod 2>/dev/null
 go test -vet=off -count=1 ./... 2>&1 | grep -v "no test files" | sed 's/^/  suite: /'
 "$@" >/tmp/demo_with.txt 2>&1; echo "demo WITH change: exit $? ; $(tail -1 /tmp/demo_with.txt | cut -c1-200)"
-git stash -q
+# (no git stash: the stash is shared between all worktrees of a repository)
+git diff > /tmp/verify_mutant_$$.diff
+git apply -R /tmp/verify_mutant_$$.diff
 "$@" >/tmp/demo_without.txt 2>&1; echo "demo WITHOUT change: exit $? ; $(tail -1 /tmp/demo_without.txt | cut -c1-200)"
-git checkout -q go.mod 2>/dev/null; git stash pop -q
+git checkout -q go.mod 2>/dev/null; git apply /tmp/verify_mutant_$$.diff; rm -f /tmp/verify_mutant_$$.diff
 git checkout -q go.mod 2>/dev/null
 git status --short | head -5
